@@ -211,7 +211,7 @@ def c19(ck, tmp):
     n = 1200 if ck.tier == "quick" else 20000
     pending = []
     for it in range(n):
-        lines = stat_file(rng, rng.choice([1, 2, 3, 5, 8, 20, 60]))
+        lines = stat_file(rng, rng.choice([1, 2, 3, 5, 8, 20, 60]) if it not in (9, n // 2) else rng.randint(1001, 1100))
         cigar = rng.random() < 0.6
         variants = [lines]
         if len(lines) > 1:
@@ -282,6 +282,8 @@ def c20(ck, tmp):
     pending = []
     for it in range(n):
         nrec = rng.choice([1, 2, 3, 6, 12])
+        if it in (7, n // 2):
+            nrec = rng.randint(1001, 1100)      # more records than any plausible internal batch of a thousand
         lines = [rand_line(rng, rng.randrange(nrec + 2)) for _ in range(nrec)]
         if rng.random() < 0.25:
             # a GAF that was phased before: it already carries ps:Z / ht:Z fields (stale values)
